@@ -68,3 +68,11 @@ func VerifHubSubs(b Backend) int {
 
 // VerifTombstone is the reserved deletion marker.
 func VerifTombstone() []byte { return append([]byte(nil), tombStoneBytes...) }
+
+// VerifCloseWatchChan ends the hub goroutine of a retired backend (its sequencer must be gone).
+func VerifCloseWatchChan(b Backend) {
+	close(b.(*backend).watchChan)
+}
+
+// VerifWatchCache exposes the event cache ring of a backend.
+func VerifWatchCache(b Backend) *Ring { return b.(*backend).watchCache }
